@@ -117,6 +117,7 @@ type JobSpec struct {
 	Smart      bool        `json:"smart"`
 	Inputs     []InputSpec `json:"inputs"`
 	Recompiles []Recompile `json:"recompiles"`
+	Shared     [][2]int    `json:"shared,omitempty"` // (input, configuration) compiled in this order by one compiler per configuration
 }
 
 var wordPool = []string{"OPA", "OPB", "OPC", "PRE", "POST", "PRF"}
@@ -258,6 +259,17 @@ func GenJob(seed uint64) *JobSpec {
 		}
 		j.Inputs = append(j.Inputs, in)
 	}
+	if ch.Bool(2, 3) {
+		// few configurations, many trees: the same compiler meets different trees, and the same tree again
+		c1, c2 := ch.Choose(ncfg), ch.Choose(ncfg)
+		for i, n := 0, 2+ch.Choose(5); i < n; i++ {
+			c := c1
+			if ch.Bool(1, 3) {
+				c = c2
+			}
+			j.Shared = append(j.Shared, [2]int{ch.Choose(len(j.Inputs)), c})
+		}
+	}
 	for r, n := 0, ch.Weighted(3, 2, 2, 1); r < n; r++ {
 		var rc Recompile
 		for i, m := 0, 1+ch.Choose(3); i < m; i++ {
@@ -346,6 +358,7 @@ func (n *OpNode) Precedence() int { return n.Level }
 // ProbeStmt / ProbeExpr are transparent wrappers: they delegate printing and
 // binding power, and give the scheduler a yield point inside Compile.
 type ProbeStmt struct {
+	Slot  int // which interceptor wrapped it: nesting order is installation order
 	Inner ast.Statement
 	env   Env
 }
@@ -357,6 +370,7 @@ func (n *ProbeStmt) WriteTo(cw *ast.CodeWriter) {
 }
 
 type ProbeExpr struct {
+	Slot  int
 	Inner ast.Expression
 	env   Env
 }
@@ -441,6 +455,9 @@ type jobRun struct {
 	tlogs map[*lexer.Lexer]*tlog
 	// curLimit: pull limit for lexers created by the Build in progress
 	curLimit int
+	twin     bool
+	curTlog  *tlog // token log of the lexer created by the Build in progress
+	lexOf    map[*parser.Parser]*tlog
 	b        builders
 }
 
@@ -458,6 +475,7 @@ func (j *jobRun) tlogOf(l *lexer.Lexer) *tlog {
 	if t == nil {
 		t = &tlog{limit: j.curLimit}
 		j.tlogs[l] = t
+		j.curTlog = t
 	}
 	return t
 }
@@ -525,7 +543,7 @@ func (j *jobRun) pb() *parser.Builder { return j.b.pb }
 // Run executes the job in env and returns its canonical result.
 func RunJob(spec *JobSpec, env Env, full bool) *JobResult {
 	j := &jobRun{spec: spec, env: env, full: full, cfgs: xutil.AllConfigs(), types: map[string]token.Type{},
-		plogs: map[*parser.Parser]*plog{}, tlogs: map[*lexer.Lexer]*tlog{}}
+		plogs: map[*parser.Parser]*plog{}, tlogs: map[*lexer.Lexer]*tlog{}, lexOf: map[*parser.Parser]*tlog{}}
 	main := &sink{full: full}
 	j.setup(main)
 	nIn := len(spec.Inputs)
@@ -551,6 +569,7 @@ func RunJob(spec *JobSpec, env Env, full bool) *JobResult {
 			continue
 		}
 		j.plogOf(p) // created here so that parts only read the table
+		j.lexOf[p] = j.curTlog
 		ps := &sink{full: full}
 		partSinks[k] = ps
 		waits = append(waits, env.Spawn(fmt.Sprintf("part%d", k), func() { progs[k] = j.part(ps, k, p) }))
@@ -558,6 +577,22 @@ func RunJob(spec *JobSpec, env Env, full bool) *JobResult {
 	env.Yield(sJoin)
 	for _, w := range waits {
 		w()
+	}
+	// one long-lived compiler per configuration compiles different trees in a seeded order (shared compilers)
+	if len(spec.Shared) > 0 {
+		shared := map[int]*compiler.Compiler{}
+		for i, pr := range spec.Shared {
+			if progs[pr[0]] == nil {
+				continue
+			}
+			env.Yield(sStep)
+			cc := shared[pr[1]]
+			if cc == nil {
+				cc = j.cfgs[pr[1]].New()
+				shared[pr[1]] = cc
+			}
+			j.compile(main, fmt.Sprintf("in%d/compile-shared%02d/%s", pr[0], i, j.cfgs[pr[1]]), progs[pr[0]], j.cfgs[pr[1]], cc)
+		}
 	}
 	// several tasks compile the same trees at once, each with its own compiler
 	rcSinks := make([]*sink, len(spec.Recompiles))
@@ -660,6 +695,7 @@ func (j *jobRun) setup(s *sink) {
 			lb.UseTokenInterceptor(func(l *lexer.Lexer, next func() token.Token) token.Token {
 				tl := j.tlogOf(l)
 				tl.n[i]++
+				tl.h = kernel.Mix(tl.h, 0xA0|uint64(i))
 				act := tl.n[i]%ic.Every == 0
 				if act {
 					env.Yield(sTokPre)
@@ -682,6 +718,7 @@ func (j *jobRun) setup(s *sink) {
 			pb.UseStatementInterceptor(func(p *parser.Parser, next func() ast.Statement) ast.Statement {
 				pl := j.plogOf(p)
 				pl.n[i]++
+				pl.h = kernel.Mix(pl.h, 0xB0|uint64(i))
 				act := pl.n[i]%ic.Every == 0
 				if ic.Kind == 1 {
 					pl.h = mixTok(kernel.Mix(pl.h, uint64(p.CurrentContext())<<1^b2u(p.IsInFunction())), p.CurrentToken)
@@ -695,7 +732,7 @@ func (j *jobRun) setup(s *sink) {
 					env.Yield(sStmtPost)
 				}
 				if ic.Kind == 2 && act && !isNilNode(st) {
-					return &ProbeStmt{Inner: st, env: env}
+					return &ProbeStmt{Slot: i, Inner: st, env: env}
 				}
 				return st
 			})
@@ -708,6 +745,7 @@ func (j *jobRun) setup(s *sink) {
 			pb.UseExpressionInterceptor(func(p *parser.Parser, next func() ast.Expression) ast.Expression {
 				pl := j.plogOf(p)
 				pl.n[4+i]++
+				pl.h = kernel.Mix(pl.h, 0xC0|uint64(i))
 				act := pl.n[4+i]%ic.Every == 0
 				if ic.Kind == 1 {
 					pl.h = mixTok(kernel.Mix(pl.h, 0x100|uint64(p.CurrentContext())<<1^b2u(p.IsInFunction())), p.CurrentToken)
@@ -727,7 +765,7 @@ func (j *jobRun) setup(s *sink) {
 					env.Yield(sExprPost)
 				}
 				if ic.Kind == 2 && act && !isNilNode(x) {
-					return &ProbeExpr{Inner: x, env: env}
+					return &ProbeExpr{Slot: i, Inner: x, env: env}
 				}
 				return x
 			})
@@ -771,9 +809,27 @@ func (j *jobRun) part(s *sink, k int, p *parser.Parser) *ast.Program {
 	if err != nil {
 		es = err.Error()
 	}
-	s.put(fmt.Sprintf("in%d/parse", k), fmt.Sprintf("panic=%q err=%q errors=%s ctx=%d inFunc=%v\n%s", pan, es, errs, p.CurrentContext(), p.IsInFunction(), xutil.Dump(prog)))
+	parseText := fmt.Sprintf("panic=%q err=%q errors=%s ctx=%d inFunc=%v\n%s", pan, es, errs, p.CurrentContext(), p.IsInFunction(), xutil.Dump(prog))
+	s.put(fmt.Sprintf("in%d/parse", k), parseText)
+	obs := ""
 	if pl := j.plogs[p]; pl != nil {
-		s.put(fmt.Sprintf("in%d/parse-observations", k), fmt.Sprintf("%d events %016x", pl.events, pl.h))
+		obs = fmt.Sprintf("%d events %016x", pl.events, pl.h)
+		s.put(fmt.Sprintf("in%d/parse-observations", k), obs)
+	}
+	if tl := j.lexOf[p]; tl != nil {
+		o := fmt.Sprintf("%d pulls %016x", tl.pulls, tl.h)
+		obs += " | " + o
+		s.put(fmt.Sprintf("in%d/token-observations", k), o)
+	}
+	if k >= 1 && !j.twin {
+		// "one builder can build many independent parsers": the k-th parser of this builder must behave
+		// exactly like the first parser of a fresh builder that was configured the same way
+		tText, tObs := j.twinParse(k)
+		if tText != parseText {
+			s.inv("later-parser-of-a-builder-differs-from-first-parser-of-an-identical-fresh-builder", fmt.Sprintf("input %d, parse result:\n shared builder: %s\n fresh builder:  %s", k, clipAroundJ(parseText, tText), clipAroundJ(tText, parseText)))
+		} else if tObs != obs {
+			s.inv("later-parser-of-a-builder-differs-from-first-parser-of-an-identical-fresh-builder", fmt.Sprintf("input %d, interceptor observations: shared builder %q, fresh builder %q", k, obs, tObs))
+		}
 	}
 	if pan != "" || prog == nil {
 		return nil
@@ -851,4 +907,61 @@ func (j *jobRun) compile(s *sink, key string, prog *ast.Program, cfg xutil.Compi
 			s.inv("source-map-changes-code", fmt.Sprintf("%s: with map %q, without %q", key, clip(res.Code), clip(r2.Code)))
 		}
 	}
+}
+
+func clipAroundJ(a, b string) string {
+	i := 0
+	for i < len(a) && i < len(b) && a[i] == b[i] {
+		i++
+	}
+	lo, hi := i-100, i+160
+	if lo < 0 {
+		lo = 0
+	}
+	if hi > len(a) {
+		hi = len(a)
+	}
+	return fmt.Sprintf("…%s… (first difference at byte %d)", a[lo:hi], i)
+}
+
+// twinParse: a fresh pair of builders receives the registration history the job's builders had
+// when input k was built; its first parser parses input k.
+func (j *jobRun) twinParse(k int) (parseText, obs string) {
+	t := &jobRun{spec: j.spec, env: j.env, cfgs: j.cfgs, twin: true, types: map[string]token.Type{},
+		plogs: map[*parser.Parser]*plog{}, tlogs: map[*lexer.Lexer]*tlog{}, lexOf: map[*parser.Parser]*tlog{}}
+	scratch := &sink{}
+	t.setup(scratch)
+	for i := 1; i <= k; i++ {
+		if in := &j.spec.Inputs[i]; in.LateName != "" {
+			guard(func() { t.types[in.LateName] = t.b.lb.RegisterTokenType(in.LateName) })
+			t.register(scratch, "late", *in.LateOp)
+		}
+	}
+	text := j.spec.Inputs[k].Text
+	t.curLimit = 2*len(text) + 64
+	var p *parser.Parser
+	if pan := guard(func() { p = t.b.pb.Build(text) }); p == nil {
+		return "build failed: " + pan, ""
+	}
+	t.plogOf(p)
+	t.lexOf[p] = t.curTlog
+	var prog *ast.Program
+	var err error
+	pan := guard(func() { prog, err = p.ParseProgram() })
+	var errs string
+	if pan == "" {
+		errs = xutil.ErrorsString(p.Errors())
+	}
+	es := "<nil>"
+	if err != nil {
+		es = err.Error()
+	}
+	parseText = fmt.Sprintf("panic=%q err=%q errors=%s ctx=%d inFunc=%v\n%s", pan, es, errs, p.CurrentContext(), p.IsInFunction(), xutil.Dump(prog))
+	if pl := t.plogs[p]; pl != nil {
+		obs = fmt.Sprintf("%d events %016x", pl.events, pl.h)
+	}
+	if tl := t.lexOf[p]; tl != nil {
+		obs += " | " + fmt.Sprintf("%d pulls %016x", tl.pulls, tl.h)
+	}
+	return parseText, obs
 }
